@@ -41,6 +41,93 @@ def cur() -> "Engine":
     return ENG
 
 
+class IntervalSet:
+    """finite union of closed integer intervals, normalised (sorted, disjoint, non-adjacent)"""
+
+    __slots__ = ("iv", "_k")
+
+    def __init__(self, iv=()):
+        iv = sorted((a, b) for a, b in iv if a <= b)
+        out = []
+        for a, b in iv:
+            if out and a <= out[-1][1] + 1:
+                if b > out[-1][1]:
+                    out[-1] = (out[-1][0], b)
+            else:
+                out.append((a, b))
+        self.iv = tuple(out)
+        self._k = None
+
+    @staticmethod
+    def of(*points):
+        return IntervalSet([(p, p) for p in points])
+
+    def key(self):
+        return self.iv
+
+    def empty(self):
+        return not self.iv
+
+    def __eq__(self, o):
+        return isinstance(o, IntervalSet) and self.iv == o.iv
+
+    def __hash__(self):
+        return hash(self.iv)
+
+    def __and__(self, o):
+        out = []
+        i = j = 0
+        a, b = self.iv, o.iv
+        while i < len(a) and j < len(b):
+            lo = max(a[i][0], b[j][0])
+            hi = min(a[i][1], b[j][1])
+            if lo <= hi:
+                out.append((lo, hi))
+            if a[i][1] < b[j][1]:
+                i += 1
+            else:
+                j += 1
+        r = IntervalSet.__new__(IntervalSet)
+        r.iv = tuple(out)
+        r._k = None
+        return r
+
+    def __or__(self, o):
+        return IntervalSet(self.iv + o.iv)
+
+    def complement(self, lo=0, hi=0x10FFFF):
+        out = []
+        cur = lo
+        for a, b in self.iv:
+            if a > cur:
+                out.append((cur, a - 1))
+            cur = max(cur, b + 1)
+        if cur <= hi:
+            out.append((cur, hi))
+        return IntervalSet(out)
+
+    def __sub__(self, o):
+        return self & o.complement(-(10 ** 9), 10 ** 9)
+
+    def __contains__(self, x):
+        return any(a <= x <= b for a, b in self.iv)
+
+    def min(self):
+        return self.iv[0][0]
+
+    def size(self):
+        return sum(b - a + 1 for a, b in self.iv)
+
+    def sample(self, prefer=()):
+        for p in prefer:
+            if p in self:
+                return p
+        return self.iv[0][0]
+
+    def __repr__(self):
+        return "IS" + repr(list(self.iv))
+
+
 class Stats(dict):
     def inc(self, k, n=1):
         self[k] = self.get(k, 0) + n
@@ -188,6 +275,36 @@ class Engine:
             return True
         r = self.decide(self.member_expr(key, var, idxs))
         self.dom[key] = inter if r else d - idxs
+        return r
+
+    # ------------------------------------------------- interval-domain variables (code points)
+    def declare_iv(self, key, var, lo, hi):
+        self.base_dom[key] = IntervalSet([(lo, hi)])
+        self.solver.add(var >= lo, var <= hi)
+
+    def iv_expr(self, key, var, iset):
+        ck = (key, iset.key())
+        e = self._memb.get(ck)
+        if e is None:
+            parts = [var == a if a == b else z3.And(var >= a, var <= b) for a, b in iset.iv]
+            e = parts[0] if len(parts) == 1 else z3.Or(parts)
+            self._memb[ck] = e
+        return e
+
+    def decide_in(self, key, var, iset) -> bool:
+        """Truth of `var in iset` (IntervalSet) for an interval-domain variable."""
+        d = self.dom.get(key)
+        if d is None:
+            d = self.dom[key] = self.base_dom[key]
+        inter = d & iset
+        if inter.empty():
+            self.st.inc("cache_hits")
+            return False
+        if inter == d:
+            self.st.inc("cache_hits")
+            return True
+        r = self.decide(self.iv_expr(key, var, iset))
+        self.dom[key] = inter if r else d - iset
         return r
 
     def current_dom(self, key):
